@@ -383,7 +383,7 @@ func init() {
 			if tier == "thorough" {
 				return 30000000
 			}
-			return 250000
+			return 600000
 		},
 		Budget: func(tier string) time.Duration {
 			if tier == "thorough" {
